@@ -96,6 +96,14 @@ def steps_for(node, level=1):
     for f in ('order_by(lambda)', 'order_by(lambda args)', 'sort_by(lambda args)', 'order_by("text")', 'order_by("desc(text)")',
               'order_by(n)', 'order_by(-n)', 'order_by(lambda tuple)'): S('order', f)
     if node.hkey is not None and node.src == 'qx': S('order', 'order_by(lambda hidden)')
+    tg = L.agg_target(node)
+    if tg is not None:
+        # conditions / sort keys with an aggregate over a collection (they make Pony rebuild the query from its
+        # original tree - LEFT JOIN + GROUP BY - and replay every recorded filter / where / order_by step)
+        S('cond', 'where(lambda: count(coll) < c)', agg=1); S('cond', 'filter("sum(coll.attr) >= c")', agg=1)
+        S('order', 'order_by(lambda: desc(count(coll)))', agg=1)
+        if tg[0] is not None:
+            S('cond', 'filter(lambda args: count(coll) < c)', agg=1); S('order', 'order_by(lambda args: sum(coll.attr))', agg=1)
     n = len(node.R)
     rng = range(0, n + 2)
     for l in rng:
@@ -149,6 +157,16 @@ def apply_step(node, st):
             else: pr = ('kw', 0, node.wkw)
         elif form == 'where(lambda hidden)':
             g = G(node); c.pq = pq.where(eval('lambda: ' + src(node.hcond), g), g, {}); pr = ('x', [node.hcond])
+        elif st.get('agg'):
+            cnt, sm = L.agg_trees(node)[:2]
+            rcnt = L.agg_trees(node, res=True)[0] if L.agg_target(node)[0] is not None else None
+            bound = cnt.a[1].v
+            if form == 'where(lambda: count(coll) < c)':
+                g = G(node, k=bound); c.pq = pq.where(eval('lambda: %s < k' % src(cnt.a[0]), g), g, {}); pr = ('xp', cnt)
+            elif form == 'filter("sum(coll.attr) >= c")': c.pq = pq.filter(src(sm), G(node), {}); pr = ('xp', sm)
+            elif form == 'filter(lambda args: count(coll) < c)':
+                g = G(node, k=bound); c.pq = pq.filter(eval('lambda %s: %s < k' % (args_of(node), src(rcnt.a[0])), g), g, {}); pr = ('xp', cnt)
+            else: raise core.HarnessError(form)
         else: raise core.HarnessError(form)
         if pr[0] == 'x':
             q = node.mq
@@ -156,7 +174,7 @@ def apply_step(node, st):
             c.B = L.qx_rows(c)
         else:
             c.post.append(pr)
-            c.B = [r for r in node.B if L.pred(pr, r.vals) is True]
+            c.B = [r for r in node.B if L.pred_row(node, pr, r) is True]
     elif fam == 'order':
         (c1, a1), (c2, a2) = node.k1, node.k2
         g = G(node)
@@ -179,6 +197,12 @@ def apply_step(node, st):
         elif form == 'order_by(lambda hidden)':
             k, d = node.hkey
             c.pq = pq.order_by(eval('lambda: ' + ('desc(%s)' % src(k) if d else src(k)), g), g, {}); keys = [('hid', k, d)]
+        elif form == 'order_by(lambda: desc(count(coll)))':
+            k = L.agg_trees(node)[2]
+            c.pq = pq.order_by(eval('lambda: desc(%s)' % src(k), g), g, {}); keys = [('hid', k, True)]
+        elif form == 'order_by(lambda args: sum(coll.attr))':
+            k = L.agg_trees(node)[3]
+            c.pq = pq.order_by(eval('lambda %s: %s' % (args_of(node), src(L.agg_trees(node, res=True)[3])), g), g, {}); keys = [('hid', k, False)]
         else: raise core.HarnessError(form)
         c.order = keys + node.order
     elif fam == 'sub':
